@@ -315,6 +315,9 @@ func sink(point string, args ...any) {
 		r.emit(map[string]any{"op": "shutdown_begin"})
 	case "proxyserver.shutdown.h1done":
 		r.emit(map[string]any{"op": "h1_shutdown_done"})
+	case "metadata.marshal.begin", "metadata.marshal.after_settings", "metadata.marshal.after_window_update", "metadata.marshal.after_priorities":
+		r.gate(point) // no step of the lifecycle specification: only a place where a handler can be held (family capture-race)
+		return
 	default:
 		return
 	}
@@ -475,6 +478,7 @@ func tlsClient(c net.Conn, alpn []string) (*tls.Conn, error) {
 
 type clientOpts struct {
 	requests int
+	halfPost bool          // HTTP/2: after the requests, begin an upload without content-length and fall silent
 	hold     chan struct{} // if set: keep the connection open (idle) until closed
 	abortAt  int           // >0: close the TCP connection after this many bytes of the session were written
 	reset    bool          // leave with a TCP reset (SO_LINGER 0) and without close_notify instead of an orderly close
@@ -599,6 +603,13 @@ func (s *Scenario) run(kind string, raw net.Conn, id string, o clientOpts) (stri
 			if err := hc.WaitStreams(sid); err != nil {
 				return id, err
 			}
+		}
+		if o.halfPost {
+			// an upload of undeclared length that stops after its first DATA frame: the handler is reading, nothing more comes
+			sid := uint32(1 + 2*o.requests)
+			blk := h2raw.Block([]h2raw.HF{{":method", "POST"}, {":scheme", "https"}, {":authority", "vf.test"}, {":path", "/" + id}, {"x-vf-tag", id}})
+			tc.Write(h2raw.Headers(sid, false, blk, nil, 0))
+			tc.Write(h2raw.Data(sid, false, []byte("abc"), -1))
 		}
 		if o.h2cancel {
 			sid := uint32(1 + 2*o.requests)
